@@ -30,3 +30,11 @@ CLAIMED["C04"] = (
     "producers) and delivered through the real adapters; hundreds of systematic/random runs are recorded and validated by TLC against "
     "the same design instantiated with each run's real field lengths, every invariant in every state.",
     TB + "; field boundaries from the reference opener", "5.4")
+CLAIMED["C05"] = (
+    "model_checking", "TLA+ StreamCodec with attacker (tamper point x segmentation x end of stream, TLC exhaustive) + DatagramTamper, concrete attacks replayed through the real adapters, trace validation",
+    "TLC checks, for every scaled encrypted layout, adapter, segmentation, end-of-stream point and tamper point, that nothing beyond the untampered "
+    "prefix is released, nothing is released after an error, and tampering is refused once the tampered unit is complete; the datagram model "
+    "enumerates every (format, attack, unit). Each scenario is made concrete on real streams/packets (bit flips, drop, duplicate, swap, insert, "
+    "splice from another session, reflection, truncation) and judged through the real FramedRead / WebSocketFramed / UDP codecs; hundreds of "
+    "random attacked runs are recorded and validated by TLC against the same design with real lengths.",
+    TB + "; ideal-AEAD abstraction (DESIGN 2.3)", "5.5")
